@@ -596,3 +596,24 @@ Proof.
   - apply map_length.
   - intros i. change 0 with (flat1 0) at 1. rewrite map_nth. reflexivity.
 Qed.
+
+(** * non-vacuity: the hypotheses of the implications above are satisfiable, and [replace] computes
+    what str::replace computes on the classic cases *)
+Example replace_match_hyp : [97; 97] <> [] /\ starts_with [97; 97; 97] [97; 97] = true.
+Proof. split; [discriminate|reflexivity]. Qed.
+Example replace_nomatch_hyp : [39] <> [] /\ starts_with [97; 39] [39] = false.
+Proof. split; [discriminate|reflexivity]. Qed.
+Example replace_absent_hyp : forall i, starts_with (skipn i [97; 98]) [39] = false.
+Proof. intros [|[|[|i]]]; reflexivity. Qed.
+Example replace_non_overlapping : replace [97; 97] [98] [97; 97; 97; 97; 97] = [98; 98; 97].
+Proof. reflexivity. Qed.
+Example replace_empty_pattern : replace [] [45] [97; 98] = [45; 97; 45; 98; 45].
+Proof. reflexivity. Qed.
+Example replace_grows : replace [39] [39; 92; 39; 39] [97; 39; 98] = [97; 39; 92; 39; 39; 98].
+Proof. reflexivity. Qed.
+Example powershell_closes_hyp : ps_is_sq 41 = false /\ ps_is_sq 44 = false /\ ps_is_sq 10 = false.
+Proof. repeat split. Qed.
+Example fish_example :
+  events fish_step FB (39 :: fish_escape_help [97; 39; 92; 10; 36] ++ [39; 32; 45])
+  = [Str 39; Lit 97; Lit 39; Lit 92; Lit 32; Lit 36; Str 39; Str 32; Str 45].
+Proof. vm_compute. reflexivity. Qed.
